@@ -433,7 +433,7 @@ func checkC14(c *Ctx) {
 		nTriples = len(triples)
 	}
 	sel := triples[:nTriples]
-	bounds := map[string]any{"command_line_shapes": 324, "triples": nTriples, "triples_for_fault_shapes": nFaultTriples,
+	bounds := map[string]any{"command_line_shapes": 324, "triples": nTriples, "triples_for_fault_shapes": nFaultTriples, "triples_for_the_r_beginfile_shapes": len(triples),
 		"programs": len(c14Progs), "input_sets": len(c14Inputs)}
 	c.Set("bounds", bounds)
 
@@ -446,14 +446,22 @@ func checkC14(c *Ctx) {
 	var runs []*c14Run
 	add := func(r *c14Run) *c14Run { runs = append(runs, r); return r }
 	selsOf := func(t *c14Triple, n int) []string { return append([]string{}, t.I.Sels[:n]...) }
+	// the triples a shape is run with: a seeded selection for the product of shapes (a few for the fault shapes); EVERY
+	// triple for the shapes of the -r E / BEGINFILE { $ = E } pair, whose verdict depends on program x input
+	// (a selector that yields null, an array, a scalar; a program that counts rounds, repairs the root, ...)
+	triplesOf := func(cfg c14Cfg) []*c14Triple {
+		switch {
+		case cfg.faulty():
+			return sel[:nFaultTriples]
+		case cfg.ProgVia == "inline" && cfg.NFiles == 1 && cfg.NSel == 1 && cfg.Out != "path":
+			return triples
+		}
+		return sel
+	}
 	for _, k := range keys {
 		var cfg c14Cfg
 		json.Unmarshal([]byte(k), &cfg)
-		ts := sel
-		if cfg.faulty() {
-			ts = sel[:nFaultTriples]
-		}
-		for ti, t := range ts {
+		for ti, t := range triplesOf(cfg) {
 			base := fmt.Sprintf("%s|%d", k, ti)
 			order := []int{0, 1}
 			if cfg.Same {
@@ -816,7 +824,7 @@ func checkC14(c *Ctx) {
 		if cfg.faulty() {
 			continue
 		}
-		for ti, t := range sel {
+		for ti, t := range triplesOf(cfg) {
 			r := byKey[fmt.Sprintf("%s|%d", k, ti)]
 			base := r.Key
 			// -f vs inline
